@@ -12,7 +12,7 @@ import (
 	insaneJSON "github.com/ozontech/insane-json"
 )
 
-func TestVerifOpenDoIfTsCmpOutsideUnixNanoRange(t *testing.T) {
+func TestVerifDoIfTsCmpOutsideUnixNanoRange(t *testing.T) {
 	check := func(ts, cmpOp string) bool {
 		checker, err := NewFromMap(map[string]any{
 			"op": "ts_cmp", "field": "ts", "cmp_op": cmpOp, "value": "2026-01-01T00:00:00Z", "format": "rfc3339nano",
